@@ -47,8 +47,18 @@ def programs(tier, seed):
         rng.shuffle(d2)
         out += [(theme, p) for p in d2[:40 if tier == "quick" else 600]]
     out += [("real", p) for p in gen.einsum_progs()] + [("real", p) for p in gen.independent_progs()]
-    from checks.c08 import gen_sameop
+    from checks.c08 import SEMIRINGS, gen_mixed, gen_sameop, gen_sumproducts
     out += [("sameop:" + op, p) for op, car, p in gen_sameop(rng, 30 if tier == "quick" else 300)]
+    out += [("sameop:mixed", p) for p in gen_mixed(rng, 30 if tier == "quick" else 300)]
+    for sr in SEMIRINGS[:4]:
+        out += [("sameop:%s/%s" % sr[:2], p) for p in gen_sumproducts(rng, 15 if tier == "quick" else 150, sr[0], sr[1], sr[2], 4)]
+    # chained substitutions into terms that stay lazy (renaming onto an existing input, then binding it)
+    from lang.prog import binary, leaf, num, subs, unary, var
+    x = leaf("x", (("i", 2), ("j", 3), ("k", 2)))
+    for f in (unary("exp", x), binary("mul", x, leaf("w", (("k", 2),))), unary("neg", x)):
+        for first, second in ((("i", var("k", ("bint", 2))), ("k", num(1, 2))), (("k", var("i", ("bint", 2))), ("i", num(0, 2))),
+                              (("i", var("k", ("bint", 2))), ("k", leaf("ix", (("j", 3),), (), ("int", 2)))), (("j", num(2, 3)), ("i", var("k", ("bint", 2))))):
+            out.append(("sameop:chain", subs(subs(f, (first,)), (second,))))
     return out
 
 
